@@ -827,6 +827,15 @@ func c20ParseObs(st *proto.StepResult, vocab []c20Pred) (*c20Obs, string) {
 		}
 		o.Answers = append(o.Answers, dropErrorContext(a))
 		o.Listing = append(o.Listing, dropErrorContext(c))
+		if vocab[i].Arity > 0 {
+			b, ok := st.Answers[0][fmt.Sprintf("B%d", i)]
+			if !ok {
+				return nil, "the observation answer lacks a variable"
+			}
+			if d := c20BoundCallDiff(a, b); d != "" {
+				return nil, fmt.Sprintf("%s called with its first argument instantiated to each atomic value the general call delivers there answers %s (the matching subset of the general call's answers %s)", vocab[i].pi(), d, c20Show(a))
+			}
+		}
 	}
 	return o, ""
 }
